@@ -131,6 +131,67 @@ def load_known_findings():
         return json.load(fd)
 
 
+class CodeCoverage:
+    """Statement coverage of /repo's package by the inputs the exploration pushes through the REAL code (in this
+    process): a measured bound on what Tie B can see.  Lines of the package that no input of a run executes are
+    code whose behaviour this run's correspondence says nothing about; they are listed in the evidence."""
+
+    def __init__(self):
+        self.cov = None
+        self.summary = None
+        try:
+            os.environ.setdefault("COVERAGE_CORE", "sysmon")
+            import coverage  # present in /venv; absence only loses the measurement
+
+            repo = os.environ.get("JPV_REPO", "/repo")
+            self.pkg = os.path.join(os.path.realpath(repo), "jsonpath_rfc9535")
+            self.cov = coverage.Coverage(data_file=None, include=[self.pkg + "/*"], config_file=False)
+        except Exception as err:  # noqa: BLE001
+            self.summary = {"error": f"coverage not measured: {err!r}"}
+
+    def start(self):
+        if self.cov is not None:
+            try:
+                self.cov.start()
+            except Exception as err:  # noqa: BLE001
+                self.summary = {"error": f"coverage not measured: {err!r}"}
+                self.cov = None
+
+    def stop(self):
+        if self.cov is None:
+            return self.summary
+        try:
+            self.cov.stop()
+            files = {}
+            tot_s = tot_m = 0
+            for root, _d, fs in os.walk(self.pkg):
+                for f in sorted(fs):
+                    if not f.endswith(".py") or "utils" in root:
+                        continue
+                    path = os.path.join(root, f)
+                    try:
+                        _fn, stmts, _excl, missing, _fmt = self.cov.analysis2(path)
+                    except Exception:  # noqa: BLE001
+                        continue
+                    if not stmts:
+                        continue
+                    rel = os.path.relpath(path, self.pkg)
+                    files[rel] = {"statements": len(stmts), "executed": len(stmts) - len(missing),
+                                  "missing_lines": missing[:60]}
+                    tot_s += len(stmts)
+                    tot_m += len(missing)
+            self.summary = {
+                "what": "statements of /repo/jsonpath_rfc9535 executed in-process by this run's exploration "
+                        "(module import lines count as executed only if imported after measurement began)",
+                "statements": tot_s, "executed": tot_s - tot_m,
+                "percent": round(100.0 * (tot_s - tot_m) / tot_s, 1) if tot_s else 0.0,
+                "files": files,
+            }
+        except Exception as err:  # noqa: BLE001
+            self.summary = {"error": f"coverage not measured: {err!r}"}
+        return self.summary
+
+
 class CheckResult:
     """What the exploration part (Tie B + oracle search) of a check reports."""
 
@@ -146,6 +207,7 @@ class CheckResult:
         self.infra = []  # infrastructure problems (exit 2)
         self.notes = []
         self.exhaustive = False
+        self.code_coverage = None
 
     def count(self, key, n=1):
         self.distribution[key] = self.distribution.get(key, 0) + n
@@ -183,6 +245,7 @@ def write_evidence(prop, tier, seed, t0, obligations_n, discharged_n, checker_cm
         "correspondence_mismatches": len(res.mismatches),
         "known_findings_printed": [k[0] for k in res.known],
         "notes": res.notes,
+        "real_code_coverage": res.code_coverage or {"error": "not measured"},
     }
     ev = {
         "property_id": prop,
